@@ -65,7 +65,7 @@ def rule_reserved(ctx: Ctx):
               f"injected keys {sorted(keys)} vs table {sorted(table)}", injected=sorted(keys))
     call = ctx.fn("Event.__call__")
     n = 0
-    for p in ctx.paths(call, inline=None, exc_edges="none"):
+    for p in ctx.paths(call, inline=None, exc_edges="none", comps_for_loops=True):
         for e in p.calls():
             if e.x["callee"] and "ctor:TriggerData" in e.x["callee"].tags:
                 n += 1
@@ -447,6 +447,21 @@ def rule_cachekey(ctx: Ctx, rule: str = "C07.cachekey"):
         rep.check(ok, rule, mk.loc(), "the memo key contains an identity-bearing component of the callable (the object, id(), "
                   "__func__ or __code__), not only name-valued attributes", mk.key, f"return {show(v)}",
                   components=[show(e) for e in elems])
+        # the signature is taken from the *unwrapped* callable (inspect follows __wrapped__): a key built from the outer
+        # object's code alone is shared by everything one decorator wrapped
+        def through_wrapper(e):
+            if isinstance(e, ast.Name) and e.id in roots:
+                return True  # the object itself
+            if isinstance(e, ast.Call) and show(e.func) == "id":
+                return True
+            txt = show(e)
+            return ("unwrap(" in txt and "__code__" in txt) or "__wrapped__" in txt
+
+        if ok:
+            rep.check(any(through_wrapper(e) for e in elems), rule, mk.loc(),
+                      "the memo key identifies the function the signature is read from (the unwrapped callable), so two callables "
+                      "wrapped by one functools.wraps decorator do not share a signature", mk.key, f"return {show(v)}",
+                      components=[show(e) for e in elems])
     rep.floor(rule, "return paths of _make_key", n, 2)
 
 
